@@ -15,6 +15,7 @@ package sort
 //@ emits: decls
 //@ serves: sort len=1 typ=typs[0]
 //@ o-sig: (list $typ) (r $typ)
+//@ o-mutates: list
 //@ o-ensures: [permutation] perm(r, list) && len(r) == len(list)
 //@ o-ensures: [same-elements] (forall k int :: 0 <= k && k < len(list) ==> exists l int :: 0 <= l && l < len(r) && r[l] == list[k]) && (forall k int :: 0 <= k && k < len(r) ==> exists l int :: 0 <= l && l < len(list) && r[k] == list[l])
 //@ o-ensures: [non-decreasing] forall a int, b int :: 0 <= a && a < b && b < len(r) ==> !(CmpTop(elem(typ), r[b], r[a]) < 0)
